@@ -457,3 +457,32 @@ contract('gnpy.core.utils.get_spacing_from_band', props=['C09', 'C08'],
                   ('none_when_outside_every_band',
                    "implies(not (b0['f_min'] <= mid and mid <= b0['f_max']) and not (b1['f_min'] <= mid and mid <= b1['f_max']), result is None)")],
          use_at_calls=False, modifies=[])
+
+# ---------------------------------------------------------------- walk along an OMS: the tilt estimate of every step is made for the power that
+# enters the next span - the reference power plus the offset of the previous amplifier, minus its output VOA (real body of the OMS loop
+# of set_egress_amplifier at a fibre; the tilt function records what it is asked)
+def _rec_tilt(it, a, k):
+    g = it.p.live['equipment']['ghost_call']
+    for nm, v in zip(('prev_node', 'next_node', 'design_bands', 'input_powers', 'equipment', 'network'), a):
+        g[nm] = v
+    g.update(k)
+    return ({'C': 0, 'L': 0}, {'C': 0, 'L': 0})
+
+
+contract('gnpy.core.network.set_egress_amplifier', name='gnpy.core.network.set_egress_amplifier[OMS walk, at a fibre]', loop=2,
+         loop_returns=['prev_dp', 'prev_voa', 'prev_node', 'node'], props=['C09', 'C17'], use_at_calls=False,
+         overrides={('gnpy.core.network', 'compute_tilt_using_previous_and_next_spans'): lambda it: _Builtin('tilt', _rec_tilt)},
+         params={'node': obj('Fiber', uid=string()), 'next_node': obj('Edfa', uid=string()), 'prev_node': obj('Edfa', uid=string()),
+                 'pref_ch_db': real(), 'power_mode': boolean(), 'verbose': boolean(), 'network': obj('<ns>'),
+                 '_design_bands': dct_k({'C': dct(f_min=real(), f_max=real()), 'L': dct(f_min=real(), f_max=real())}),
+                 'prev_dp': dct_k({'C': real(), 'L': real()}), 'prev_voa': dct_k({'C': real(), 'L': real()}),
+                 'dp': dct_k({'C': real(), 'L': real()}), 'voa': dct_k({'C': real(), 'L': real()}),
+                 'pref_total_db': dct_k({'C': real(), 'L': real()}),
+                 'equipment': dct(ghost_call=dct())},
+         let={'asked': "equipment['ghost_call']"},
+         ensures=[('tilt_estimated_for_the_power_behind_the_previous_voa',
+                   "asked['input_powers']['C'] == spec_db2lin(pref_ch_db + old(prev_dp)['C'] - old(prev_voa)['C']) * 1e-3 and "
+                   "asked['input_powers']['L'] == spec_db2lin(pref_ch_db + old(prev_dp)['L'] - old(prev_voa)['L']) * 1e-3"),
+                  ('for_the_spans_around_this_element', "asked['prev_node'] is old(prev_node) and asked['next_node'] is next_node"),
+                  ('hand_over', "result[0]['C'] == dp['C'] and result[1]['C'] == voa['C'] and result[2] is old(node) and result[3] is next_node")],
+         modifies=["equipment['ghost_call'][*]", 'prev_dp[*]', 'prev_voa[*]'])
